@@ -134,6 +134,13 @@ func (i *Instance) Servers() []ServerListener { return i.servers }
 // Stop stops all servers contained in i. It does NOT
 // execute shutdown callbacks.
 func (i *Instance) Stop() error {
+	// Wait must not return while the servers are still being stopped
+	// (a graceful stop makes Serve return at once and then drains)
+	if i.wg != nil {
+		i.wg.Add(1)
+		defer i.wg.Done()
+	}
+
 	// stop the servers
 	for _, s := range i.servers {
 		if gs, ok := s.server.(GracefulServer); ok {
